@@ -129,7 +129,7 @@ type World struct {
 	catBind map[int]*Func
 
 	FaultsFired [4]int
-	HomeOf      map[int]int // fn id -> index of the scope it was provided to (set by the runner on accepted Provide)
+	HomeOf      map[int]int               // fn id -> index of the scope it was provided to (set by the runner on accepted Provide)
 	Online      func(w *World, ev *Event) // optional hook run at fn-enter
 }
 
@@ -152,6 +152,7 @@ func NewWorld(h *History) *World {
 	if h.Cfg.DryRun {
 		opts = append(opts, dig.DryRun(true))
 	}
+	curValMask = h.Cfg.ValMask
 	w.C = dig.New(opts...)
 	root := dig.VerifRootScope(w.C)
 	dig.VerifSeedRand(root, mix64(h.Cfg.ShuffleSeed, 0))
@@ -209,10 +210,13 @@ var (
 
 func valType(t int) reflect.Type {
 	if IsSliceT(t) {
-		return reflect.SliceOf(kTypes[t-TSlice])
+		return reflect.SliceOf(valType(t - TSlice))
 	}
 	if IsIface(t) {
 		return iTypes[t-TIface]
+	}
+	if isVal(t) {
+		return vTypes[t]
 	}
 	return kTypes[t]
 }
@@ -241,7 +245,7 @@ func paramType(p Param, positional bool) reflect.Type {
 	case PSingle:
 		return valType(p.T)
 	case PGroup:
-		if p.NamedSlice && !IsIface(p.T) {
+		if p.NamedSlice && !IsIface(p.T) && !isVal(p.T) {
 			return ksTypes[p.T]
 		}
 		return reflect.SliceOf(valType(p.T))
@@ -340,8 +344,16 @@ func (w *World) FnValue(i int) interface{} {
 
 // ---------------------------------------------------------------- stub body
 
+func nilable(v reflect.Value) bool {
+	switch v.Kind() {
+	case reflect.Ptr, reflect.Interface, reflect.Slice, reflect.Map, reflect.Chan, reflect.Func:
+		return true
+	}
+	return false
+}
+
 func (w *World) observeSingle(v reflect.Value, t int) ArgObs {
-	if v.IsNil() {
+	if (nilable(v) && v.IsNil()) || (!nilable(v) && v.IsZero()) {
 		return ArgObs{Zero: true}
 	}
 	tok, ok := v.Interface().(Tok)
@@ -378,7 +390,7 @@ func (w *World) observeGroup(v reflect.Value) ArgObs {
 			o.Serials = append(o.Serials, SepSerial)
 			for j := 0; j < e.Len(); j++ {
 				tok, ok := e.Index(j).Interface().(Tok)
-				if !ok || e.Index(j).IsNil() {
+				if !ok || (nilable(e.Index(j)) && e.Index(j).IsNil()) {
 					o.Bad = "element of a slice-typed group member is not a token"
 					continue
 				}
@@ -390,7 +402,7 @@ func (w *World) observeGroup(v reflect.Value) ArgObs {
 			}
 			continue
 		}
-		if e.IsNil() {
+		if (nilable(e) && e.IsNil()) || (!nilable(e) && e.IsZero()) {
 			o.Serials = append(o.Serials, -1)
 			o.Bad = "nil group element"
 			continue
@@ -435,11 +447,14 @@ func (w *World) mint(fn, exec, leaf, elem int, t int, poison bool, inputs []int6
 	if IsSliceT(t) {
 		t -= TSlice
 	}
-	if IsIface(t) {
+	switch {
+	case IsIface(t):
 		// Results are never declared with interface types by the generator;
 		// fall back to a K0 payload.
 		p = kNew[0](s)
-	} else {
+	case isVal(t):
+		p = vNew[t](s)
+	default:
 		p = kNew[t](s)
 	}
 	w.Tokens = append(w.Tokens, TokInfo{Serial: s, Fn: fn, Exec: exec, Leaf: leaf, Elem: elem, Poison: poison, Ptr: p, Inputs: inputs})
